@@ -5,7 +5,7 @@ from ..runner import run_check
 LIB = ["async_manual_reset_event_v1.cpp", "inplace_stop_token.cpp"]
 V2 = ["v2_race1", "v2_race2", "v2_late_nest", "v2_detached", "v2_two_joins", "v2_wide"]
 V1 = ["v1_complete", "v1_cleanup", "v1_stop_join", "v1_stop_spawn"]
-V0 = ["v0_complete", "v0_cleanup", "v0_stop_join"]
+V0 = ["v0_complete", "v0_cleanup", "v0_stop_join", "v0_spawn_race"]
 PROPS = ["UnifexModel.Props.C08", "UnifexModel.Props.C08_v2", "UnifexModel.Props.C08_v2b",
          "UnifexModel.Props.C08_v1", "UnifexModel.Props.C08_v1b", "UnifexModel.Props.C08_v0"]
 
@@ -16,7 +16,7 @@ def run(tier, seed, replay=None):
              AtomicPart("scopev0", "scn_c08.cpp", LIB, "scopev0", V0)]
     return run_check(
         "C08", tier, seed, PROPS, parts,
-        rule="every schedule (DFS with preemption bound, plus random and PCT walks) of 13 scenarios on the real v2/v1/v0 async_scope "
+        rule="every schedule (DFS with preemption bound, plus random and PCT walks) of 14 scenarios on the real v2/v1/v0 async_scope "
              "(nest / spawn_detached / v0 spawn of manually completed leaf senders racing join / complete / cleanup / request_stop) under the "
              "controlled scheduler; a case = one distinct observable history; non-trivial = admitted by the Lean model of the same name",
         assumptions=["sequentially consistent atomics (memory orders ignored)",
